@@ -22,6 +22,8 @@ EPS = 2.0**-52
 SHARD_TIMEOUT = {"quick": 2400, "thorough": 20000}
 VLE_SETS = ["MeOH_DMC", "H2O_AceticAcid", "EtOH_ETBE", "MeOH_MTBE", "MeOH_Toluene", "H2O_MeOH", "H2O_iPOH", "H2O_EtOH"]
 
+ANCHORS = [('optimizer/optimizer.py', 'x=component_index,', 'zero points appended for include_zero'), ('mixtures/uniquac_fitting.py', 'if current_error < error:', 'best-of-methods comparison in fit_vle')]
+
 
 def shards(tier, seed):
     if tier == "quick":
